@@ -135,7 +135,7 @@ EXTRA = {
     'C08': ' Later: looking is not using (repr, str, hash, ==, copy / pickle protocols), the public Cell / Slice constructors over the cell\'s and the caller\'s own arrays. Round 8: public argument-less recompute methods inside the histories with per-level hashes / recomputed representation hash in the registry, every VM value serialiser called directly, plain-bit-array cells looked at through parents / slices / builders.',
     'C09': ' Later: keys entering through map_ / .map, anycast Address keys, combs nesting 450 / 600 / 1000 forks under the default recursion limit (recorded finding above ~490). Round 8: over-long bit-string / bytes keys whose extra leading bits are zero, anycast Address keys at 267 bits and at their own width, direct edits of .map between serialisations.',
     'C10': ' Later: trees nesting 450 / 600 / 1000 forks under the default recursion limit (recorded finding above ~490).',
-    'C11': ' Later: forgeries of the proof cell itself (all 16 depth bits, length, reference count), pruned masks without slots, roots of account proofs that are not Merkle proofs, proofs through copy / pickle.',
+    'C11': ' Later: forgeries of the proof cell itself (all 16 depth bits, length, reference count), pruned masks without slots, roots of account proofs that are not Merkle proofs, proofs through copy / pickle. Round 8: check_shard_proof - masterchain block + state + BinTree of shard descriptors encoded from block.tlb, honest proofs accepted, ten forgeries (other hash / seqno / workchain, state of another block, unknown shard, root counts, swapped roots) rejected.',
     'C12': ' Later: validator set as tuple / generator / iterator / map / dict view; block id used before the check.',
     'C13': ' Later: out-of-domain addresses built and rendered between the valid round trips.',
     'C14': ' Later: id-like bytes where they must stay bytes, bytes-like field values, damaged parses and a storm of failing nested payloads between valid calls on one schemas object. Round 8: several TL objects in one bytes field (parsed to a list; what the parser returns must serialise back).',
